@@ -16,7 +16,7 @@ func init() {
 			"O1 local-first: in package blockservice every Fetcher.GetBlock(ctx, c) is reachable only after Blockstore.Get(ctx, <same c>) returned an error, and every key passed to Fetcher.GetBlocks was appended on the error edge of Blockstore.Get(ctx, <that key>); " +
 			"O2 cache-before-deliver: every block that originates from the exchange (result of Fetcher.GetBlock, value received from the channel of Fetcher.GetBlocks) is returned / sent to the caller only after Blockstore.Put(ctx, <that block>) returned nil; " +
 			"O3 request check: a block that originates from the exchange is stored and delivered only under a condition computed from its own Cid() (comparison with the requested CID / membership in the requested set) — violated today at the two known flows, any further unchecked flow is a new violation; " +
-			"O4 blocks delivered from the local store are the result of Blockstore.Get(ctx, k) for a requested key k on its nil-error edge; the public entry points hand their own CID / key slice unchanged to getBlock / getBlocks. " +
+			"O4 blocks delivered from the local store are the result of Blockstore.Get(ctx, k) for a requested key k on its nil-error edge (or returned together with that Get's own error result); the public entry points hand their own CID / key slice unchanged to getBlock / getBlocks. " +
 			"O5 a session embedded in a context is handed out only to the block service it belongs to (stored under / looked up by the service itself, or an owner equality test on the use edge), and every caller asks for its own service — otherwise one service's GetBlock fetches through another's exchange and caches into another's store. " +
 			"NOT decided: that local blocks hash to their CID (trusts the blockstore), ordering/duplicates of GetBlocks output, re-hashing of exchange blocks (bitswap does it; the exchange interface does not promise it).",
 		Assume:    []string{"Blockstore.Get returns the block stored under the requested CID"},
@@ -444,7 +444,18 @@ func runC05(c *an.Ctx) {
 							isGet = true
 						}
 					}
-					if !isG || !isGet || !an.OnNilEdgeOf(fn, g, s.in) {
+					// `return store.Get(ctx, k)`: the block travels with Get's own error
+					forwarded := false
+					if ret, isRet := s.in.(*ssa.Return); isRet && isG {
+						if ev := an.RetVal(ret, -1); ev != nil {
+							if rs := an.Roots(ev, nil); len(rs) == 1 {
+								if ee, ok := rs[0].(*ssa.Extract); ok && ee.Tuple == ssa.Value(g) && an.IsErrorType(ee.Type()) {
+									forwarded = true
+								}
+							}
+						}
+					}
+					if !isG || !isGet || !(forwarded || an.OnNilEdgeOf(fn, g, s.in)) {
 						ok = false
 						break
 					}
